@@ -56,7 +56,7 @@ class Run:
     def __init__(self, prefix=(), float_policy=None, default_last=False):
         self.prefix = prefix
         self.default_last = default_last   # base execution answers arity-1 instead of 0 (second pass)
-        self.trace = []          # (arity, chosen, cost, label, weights)
+        self.trace = []          # (arity, chosen, cost, label, weights, keep_default)
         self.weight = Fraction(1)
         self.unscripted = 0
         self.float_policy_fn = float_policy
@@ -72,18 +72,20 @@ class Run:
             return REACH_GRID
         return self.float_policy_fn(i)
 
-    def choose(self, arity, label='', weights=None, cost=1):
+    def choose(self, arity, label='', weights=None, cost=1, keep_default=False):
+        """keep_default: the default answer stays alternative 0 also in the all-last base execution (used for fault
+        positions: 'no fault' is the default in both passes)."""
         i = len(self.trace)
         if i < len(self.prefix):
             c = self.prefix[i]
             if c >= arity:
                 raise ReplayDivergence(f"choice {i} ({label}): prefix wants {c}, arity {arity}")
         else:
-            c = arity - 1 if (self.default_last and cost) else 0
+            c = arity - 1 if (self.default_last and cost and not keep_default) else 0
             if weights is not None and weights[c] == 0:
                 # default must be a possible alternative
                 c = next(j for j, w in enumerate(weights) if w != 0)
-        self.trace.append((arity, c, cost, label, weights))
+        self.trace.append((arity, c, cost, label, weights, keep_default))
         if weights is None:
             self.weight = self.weight * Fraction(1, arity)
         else:
@@ -183,11 +185,11 @@ def explore(driver, on_leaf=None, bound=None, root=(), float_policy=None, max_ex
         dev = 0
         if bound is not None:
             for j in range(len(p)):
-                if p[j] != ((tr[j][0] - 1) if (default_last and tr[j][2]) else 0):
+                if p[j] != ((tr[j][0] - 1) if (default_last and tr[j][2] and not tr[j][5]) else 0):
                     dev += tr[j][2]
         base = run.choices()
         for i in range(len(tr) - 1, len(p) - 1, -1):
-            arity, c, cost, label, weights = tr[i]
+            arity, c, cost, label, weights, _keep = tr[i]
             if arity <= 1:
                 continue
             if bound is not None and dev + cost > bound:
@@ -224,7 +226,7 @@ def frontier(driver, depth, float_policy=None):
             roots.append(p)
             continue
         # expand the choice at position len(p)
-        arity, c, cost, label, weights = tr[len(p)]
+        arity, c, cost, label, weights, _keep = tr[len(p)]
         for alt in range(arity):
             if weights is not None and weights[alt] == 0:
                 continue
